@@ -15,6 +15,7 @@ import (
 	"sync"
 	"sync/atomic"
 	"testing"
+	"time"
 
 	"github.com/anishathalye/porcupine"
 	docdid "github.com/trustbloc/did-go/doc/did"
@@ -63,12 +64,12 @@ var c20Origins = []interface{}{nil, "origin", "a\u0001b\u0002c\u001f", "\u0003\u
 	[]interface{}{"\u000b", "\u0012\u0013\u0014", 0.000001, 123456789012345680000.0}}
 
 type c20Shared struct {
-	stack   *libStack
-	handler *dochandler.DocumentHandler
-	vdr     *longform.VDR
-	tr      *didtransformer.Transformer
+	stack                                                      *libStack
+	handler                                                    *dochandler.DocumentHandler
+	vdr                                                        *longform.VDR
+	tr                                                         *didtransformer.Transformer
 	inParse, inApply, inCompose, inTransform, inResolve, inVDR int32
-	maxOverlap                                                  int32
+	maxOverlap                                                 int32
 }
 
 func (s *c20Shared) enter(c *int32) {
@@ -88,7 +89,7 @@ func genC20Calls(t *rapid.T, s *c20Shared, n int) []c20Call {
 	p := s.stack.P
 	var calls []c20Call
 	for i := 0; i < n; i++ {
-		kind := rapid.SampledFrom([]string{"parse", "parse-invalid", "apply-create", "apply-update", "compose", "transform", "resolve", "process", "vdr-create", "vdr-read", "canonicalize"}).Draw(t, "callKind")
+		kind := rapid.SampledFrom([]string{"parse", "parse-invalid", "apply-create", "apply-update", "compose", "compose-copy-move", "transform", "resolve", "process", "vdr-create", "vdr-read", "canonicalize"}).Draw(t, "callKind")
 		origin := rapid.SampledFrom(c20Origins).Draw(t, "origin")
 		switch kind {
 		case "parse", "parse-invalid":
@@ -138,6 +139,37 @@ func genC20Calls(t *rapid.T, s *c20Shared, n int) []c20Call {
 				s.enter(&s.inApply)
 				defer s.leave(&s.inApply)
 				return rmDigest(s.stack.Applier.Apply(anchoredBytes("update", ub, suffix, anchorMeta{Time: 3, Canonical: "d"}), prev))
+			}})
+		case "compose-copy-move":
+			// several copy / move operations of sizeable values: every call has its own document with its own marker
+			marker := fmt.Sprintf("doc-%d-", len(calls)) + genString(t, 6)
+			var items []interface{}
+			for i := rapid.IntRange(1, 12).Draw(t, "items"); i > 0; i-- {
+				items = append(items, map[string]interface{}{"marker": marker, "n": fmt.Sprint(i), "pad": strings.Repeat(marker, rapid.IntRange(1, 30).Draw(t, "pad"))})
+			}
+			doc := map[string]interface{}{"src": map[string]interface{}{"items": items, "marker": marker}, "alsoKnownAs": []interface{}{"https://" + "cm.example/" + fmt.Sprint(len(calls))}}
+			var ops []interface{}
+			for i := rapid.IntRange(2, 6).Draw(t, "nops"); i > 0; i-- {
+				to := fmt.Sprintf("/dst%d", i)
+				if rapid.Bool().Draw(t, "move") && i > 1 {
+					ops = append(ops, map[string]interface{}{"op": "copy", "from": "/src", "path": to}, map[string]interface{}{"op": "move", "from": to, "path": to + "moved"})
+				} else {
+					ops = append(ops, map[string]interface{}{"op": "copy", "from": rapid.SampledFrom([]string{"/src", "/src/items", "/src/items/0", "/src/marker"}).Draw(t, "from"), "path": to})
+				}
+			}
+			lps, err := libPatches([]interface{}{map[string]interface{}{"action": "ietf-json-patch", "patches": ops}})
+			if err != nil {
+				t.Fatalf("harness: %v", err)
+			}
+			ld := libDoc(doc)
+			calls = append(calls, c20Call{kind, func() string {
+				s.enter(&s.inCompose)
+				defer s.leave(&s.inCompose)
+				res, err := s.stack.Composer.ApplyPatches(ld, lps)
+				if err != nil {
+					return "ERR:" + err.Error()
+				}
+				return docCanon(res)
 			}})
 		case "compose":
 			doc := genDocument(t, false)
@@ -301,7 +333,7 @@ func TestC20_SharedComponents(t *testing.T) {
 				}(w)
 			}
 			close(start)
-			wg.Wait()
+			awaitWorkers(t, &wg, "C20 shared components")
 			for i := range calls {
 				if got[i] != want[i] {
 					t.Fatalf("C20 concurrent %s call returned another result than sequentially (GOMAXPROCS=%d, %d goroutines, %d calls)\n concurrent %s\n sequential %s",
@@ -322,7 +354,9 @@ func TestC20_SharedComponents(t *testing.T) {
 			labels = append(labels, "overlap-observed")
 		}
 		st.Case(overlap >= 2, fmt.Sprint(want), labels...)
-		st.Sample("workload", 2, func() interface{} { return map[string]interface{}{"calls": kinds, "gomaxprocs": procs, "goroutines": workers, "maxOverlapInOneComponent": overlap} })
+		st.Sample("workload", 2, func() interface{} {
+			return map[string]interface{}{"calls": kinds, "gomaxprocs": procs, "goroutines": workers, "maxOverlapInOneComponent": overlap}
+		})
 	})
 }
 
@@ -479,7 +513,7 @@ func TestC20_Registries(t *testing.T) {
 			}(w)
 		}
 		close(start)
-		wg.Wait()
+		awaitWorkers(t, &wg, "C20 "+which)
 		if !porcupine.CheckOperations(regModel(which == "client-registry"), history) {
 			sort.Slice(history, func(i, j int) bool { return history[i].Call < history[j].Call })
 			var sb strings.Builder
@@ -499,4 +533,55 @@ func TestC20_Registries(t *testing.T) {
 			return map[string]interface{}{"registry": which, "goroutines": workers, "gomaxprocs": procs, "operations": len(history), "sets": sets}
 		})
 	})
+}
+
+// awaitWorkers waits for the workers of one concurrent workload. Workloads take milliseconds; if one is still running
+// after a long grace period the goroutine dump is inspected twice, ten seconds apart: goroutines that sit in a lock
+// operation below a library frame both times are deadlocked (a violation, reported with the dump). Anything else keeps
+// waiting and is left to the run's time-out (inconclusive).
+func awaitWorkers(t *rapid.T, wg *sync.WaitGroup, what string) {
+	done := make(chan struct{})
+	go func() { wg.Wait(); close(done) }()
+	select {
+	case <-done:
+		return
+	case <-time.After(90 * time.Second):
+	}
+	first := blockedInLibrary()
+	select {
+	case <-done:
+		return
+	case <-time.After(10 * time.Second):
+	}
+	second := blockedInLibrary()
+	var stuck []string
+	for id, block := range second {
+		if _, ok := first[id]; ok {
+			stuck = append(stuck, block)
+		}
+	}
+	if len(stuck) > 0 {
+		sort.Strings(stuck)
+		t.Fatalf("%s: %d goroutine(s) blocked on a lock inside the library for more than 100 s while the workload cannot finish (deadlock)\n%s",
+			what, len(stuck), clip(strings.Join(stuck, "\n\n"), 6000))
+	}
+	<-done
+}
+
+// blockedInLibrary returns the goroutines (id -> stack) that wait in a sync primitive with a library frame on their stack.
+func blockedInLibrary() map[string]string {
+	buf := make([]byte, 4<<20)
+	buf = buf[:runtime.Stack(buf, true)]
+	out := map[string]string{}
+	for _, block := range strings.Split(string(buf), "\n\n") {
+		head, _, _ := strings.Cut(block, "\n")
+		if !strings.HasPrefix(head, "goroutine ") {
+			continue
+		}
+		waiting := strings.Contains(head, "[sync.") || strings.Contains(head, "[semacquire")
+		if waiting && strings.Contains(block, "github.com/trustbloc/sidetree-go/pkg/") {
+			out[strings.Fields(head)[1]] = block
+		}
+	}
+	return out
 }
